@@ -123,6 +123,7 @@ fn account(st: &mut Stats, w: &World, e: &Exec, c19_set: &mut HashSet<u64>, c09_
     st.add("model.pinned_first_queries", e.model.pinned_queries);
     st.add("model.cursor_shift_checks", e.model.shift_checks);
     st.add("model.prefilter_free_twin_checks", e.model.twin_checks);
+    st.add("probes.prefilter_knob_honoured_by_the_library", e.model.twin_knob_honoured);
     st.add("model.haystack_extension_checks", e.model.extension_checks);
     st.add("model.haystack_extension_informative", e.model.extension_informative);
     st.add("model.cursor_shift_informative", e.model.shift_informative);
